@@ -85,7 +85,94 @@ func c03Extra(tier string, seed uint64, i int) []h.Result {
 	return []h.Result{r}
 }
 
+// ---- C17 scaling series: cost per input size must stay (near) linear
+
+type scaleFamily struct {
+	name string
+	gen  func(n int) string // statement(s) of func atom
+}
+
+var c17Scale = []scaleFamily{
+	{"string literal of n bytes", func(n int) string { return "_ = \"" + strings.Repeat("a", n) + "\"" }},
+	{"integer literal of n digits", func(n int) string { return "const k = " + strings.Repeat("7", n) + "; _ = k > 0" }},
+	{"parenthesised nesting depth n", func(n int) string { return "_ = " + strings.Repeat("(", n) + "i" + strings.Repeat(" + 1)", n) }},
+	{"left-associated chain of n additions", func(n int) string { return "_ = i" + strings.Repeat(" + i", n) }},
+	{"constant chain of n additions", func(n int) string { return "_ = 1" + strings.Repeat(" + 1", n) }},
+	{"constant string concatenation of n pieces", func(n int) string { return "_ = \"a\"" + strings.Repeat(" + \"a\"", n) }},
+	{"call with n arguments", func(n int) string { return "_ = vari(" + strings.TrimSuffix(strings.Repeat("i, ", n), ", ") + ")" }},
+	{"slice literal with n elements", func(n int) string { return "_ = []int{" + strings.TrimSuffix(strings.Repeat("1, ", n), ", ") + "}" }},
+	{"map literal with n entries", func(n int) string {
+		var sb strings.Builder
+		sb.WriteString("_ = map[int]int{")
+		for k := 0; k < n; k++ {
+			fmt.Fprintf(&sb, "%d: %d, ", k, k)
+		}
+		return sb.String() + "}"
+	}},
+	{"n statements", func(n int) string { return strings.TrimSuffix(strings.Repeat("i++; ", n), "; ") }},
+	{"n nested blocks", func(n int) string { return strings.Repeat("{ ", n) + "i++" + strings.Repeat(" }", n) }},
+	{"n nested ifs", func(n int) string { return strings.Repeat("if b { ", n) + "i++" + strings.Repeat(" }", n) }},
+	{"n labels", func(n int) string {
+		var sb strings.Builder
+		for k := 0; k < n; k++ {
+			fmt.Fprintf(&sb, "L%d: for { break L%d }; ", k, k)
+		}
+		return strings.TrimSuffix(sb.String(), "; ")
+	}},
+	{"n local declarations", func(n int) string {
+		var sb strings.Builder
+		for k := 0; k < n; k++ {
+			fmt.Fprintf(&sb, "x%d := %d; _ = x%d; ", k, k, k)
+		}
+		return strings.TrimSuffix(sb.String(), "; ")
+	}},
+	{"shift by a huge constant", func(n int) string { return fmt.Sprintf("_ = 1 << %d", n*1000000) }},
+	{"selector chain of n members", func(n int) string { return "var r Rec; _ = r" + strings.Repeat(".Next", n) }},
+}
+
+func c17ScaleN(string) int { return len(c17Scale) }
+
+func c17ScaleRun(tier string, seed uint64, i int) []h.Result {
+	fam := c17Scale[i]
+	res := h.Result{Key: "scaling: " + fam.name, Verdict: h.Held, NonTrivial: true}
+	sizes := []int{100, 1000, 10000}
+	drive.Build(sharedUniverse(), []string{gen.Atom{Stmt: "_ = i"}.Program()}, drive.Opt{NoCompare: true, NoRef: true}) // warm-up (importer)
+	var allocs []uint64
+	var cpus []float64
+	for _, n := range sizes {
+		a := gen.Atom{Cat: "scale", Decl: "type Rec struct{ Next *Rec }", Stmt: fam.gen(n)}
+		src := a.Program()
+		o := drive.Build(sharedUniverse(), []string{src}, drive.Opt{NoCompare: true, NoRef: true})
+		if o.Status == "crash" {
+			res.Verdict, res.Kind, res.Detail = h.Violated, "crash: "+o.CrashSig, fmt.Sprintf("n=%d: %s\n%s", n, o.Msg, o.Stack)
+			return []h.Result{res}
+		}
+		if o.Status == "fe" {
+			res.Verdict, res.Kind, res.Detail = h.Skip, "front-end", o.Msg
+			return []h.Result{res}
+		}
+		allocs = append(allocs, o.BuildAlloc)
+		cpus = append(cpus, o.BuildCPU)
+		res.Count("operations", int64(o.Ops))
+	}
+	res.Detail = fmt.Sprintf("n=100/1000/10000: allocated %d / %d / %d bytes, cpu %.3f / %.3f / %.3f s", allocs[0], allocs[1], allocs[2], cpus[0], cpus[1], cpus[2])
+	const slack = 8 << 20
+	for k := 1; k < len(sizes); k++ {
+		if allocs[k] > 20*allocs[k-1]+slack {
+			res.Verdict, res.Kind = h.Violated, "superlinear-allocation"
+			res.Detail = fmt.Sprintf("allocation grows faster than 20x per 10x input (%d -> %d bytes for n=%d -> %d); ", allocs[k-1], allocs[k], sizes[k-1], sizes[k]) + res.Detail
+		}
+	}
+	if res.Verdict == h.Held && cpus[2] > 5 {
+		res.Verdict, res.Kind = h.Violated, "slow"
+		res.Detail = "more than 5 CPU-s for n=10000; " + res.Detail
+	}
+	res.Count("scaling_families", 1)
+	return []h.Result{res}
+}
+
 func init() {
+	c17def.extraN, c17def.extraRun = c17ScaleN, c17ScaleRun
 	c02def.extraN, c02def.extraRun = progN, c02Extra
 	c03def.extraN, c03def.extraRun = progN, c03Extra
 	c04def.extraN = nestedConstN
@@ -118,7 +205,7 @@ func init() {
 		ID: "C17", Level: "exploration",
 		Rule: "every catalogue atom (well-formed operation sequences on operands of arbitrary kind, valid or not) under three configurations (default with recorder+interpreter; XGo builtin; bare: no recorder, no interpreter, no big-number types), " +
 			"one isolated case per atom: recovered panics are classified by dynamic type (runtime.Error = fault; error/string values = reported error), fatal errors and resource overruns (heap > 3 GiB, > 60 CPU-s for one atom) are attributed " +
-			"through the worker journal; plus scaling series (literal length, nesting depth, argument count, statement count at n = 10^2,10^3,10^4) with allocation-per-operation bounds. non-trivial = builder reached; distinct by atom+configuration",
+			"through the worker journal; plus 16 scaling series (literal length, parenthesis/block/if nesting depth, operator chains incl. constant folding chains, argument / element / entry counts, statements, labels, declarations, selector chains, huge shift counts at n = 10^2, 10^3, 10^4): bytes allocated and CPU spent inside the builder operations (parsing and printing excluded) must not grow more than 20x per 10x of input (+8 MiB) and stay under 5 CPU-s. non-trivial = builder reached; distinct by atom+configuration",
 		Assume: []string{"runtime.Error marks a run-time fault; any other panic value is a reported error per the property's own observation list", "operation sequences are well formed (a front end cannot underflow the stack)"},
 		MinNT:  100, Plan: c17def.Plan, Run: c17def.Run, Describe: c17def.Describe,
 	})
